@@ -566,6 +566,8 @@ class FiltersSet:
         for f in self.filters:
             if f["name"] != name:
                 continue
+            if self.__isdisabled(f["content"]):
+                return True
             ifcontrol.addchild(f["content"])
             f["content"] = ifcontrol
             f["enabled"] = False
